@@ -105,17 +105,21 @@ def translate(repo: Path) -> dict:
 
     # pkt_line: f"{len(data) + H:0Wx}"
     fn = T.find_def(tree, "pkt_line")
-    fv = [n for n in ast.walk(fn) if isinstance(n, ast.FormattedValue)]
-    if len(fv) != 1 or fv[0].format_spec is None:
+    fv = [n for n in ast.walk(fn) if isinstance(n, ast.FormattedValue) and n.format_spec is not None]
+    if len(fv) != 1:
         raise T.TranslateError("pkt_line: expected exactly one formatted value with a format spec")
     spec = "".join(v.value for v in fv[0].format_spec.values if isinstance(v, ast.Constant))
     m = re.fullmatch(r"0(\d+)x", spec)
     if not m:
         raise T.TranslateError(f"pkt_line: format spec {spec!r} is not zero-padded lower-case hex")
     g["fmtWidth"] = int(m.group(1))
+    g["maxPktLineLen"] = T.const_value(tree, "MAX_PKT_LINE_LEN")
+    g["maxDataLen"] = T.const_value(tree, "MAX_PKT_LINE_DATA_LEN")
     g.update(_match(tree, "pkt_line", f"""
         if data is None:
             return b'«flushLit»'
+        if len(data) > MAX_PKT_LINE_DATA_LEN:
+            raise ValueError(f'pkt-line payload of {{len(data)}} bytes exceeds the maximum of {{MAX_PKT_LINE_DATA_LEN}} bytes')
         return f'{{len(data) + «fmtHdr»:{spec}}}'.encode('ascii') + data
     """))
     flush_lit = str(g.pop("flushLit"))
@@ -143,7 +147,7 @@ def translate(repo: Path) -> dict:
                 return None
             if size < «rdMin»:
                 raise GitProtocolError(f'Invalid pkt-line length: {size:04x}')
-            pkt_contents = read(size - «rdHdr»)
+            pkt_contents = read(size - «rdHdr») if size > «rdEmpty» else b''
         except ConnectionResetError as exc:
             raise HangupException from exc
         except OSError as exc:
@@ -167,11 +171,16 @@ def translate(repo: Path) -> dict:
         self.unread_pkt_line(next_line)
         return False
     """)
-    _match(tree, "Protocol.unread_pkt_line", """
+    g.update(_match(tree, "Protocol.unread_pkt_line", """
         if self._readahead is not None:
             raise ValueError('Attempted to unread multiple pkt-lines.')
-        self._readahead = BytesIO(pkt_line(data))
-    """)
+        if data is None:
+            self._readahead = BytesIO(pkt_line(None))
+        else:
+            if len(data) + «unHdr» > «unMax»:
+                raise ValueError('Attempted to unread an oversized pkt-line.')
+            self._readahead = BytesIO(b'%0«unWidth»x' % (len(data) + «unHdr») + data)
+    """))
     _match(tree, "Protocol.write_pkt_line", """
         try:
             line = pkt_line(line)
@@ -234,11 +243,14 @@ def translate(repo: Path) -> dict:
     _match(tree, "extract_capabilities", """
         if b'\\x00' not in text:
             return (text, [])
-        text, capabilities = text.rstrip().split(b'\\x00')
-        return (text, capabilities.strip().split(b' '))
+        text, capabilities = text.split(b'\\x00')
+        capabilities = capabilities.strip(b' \\n')
+        if not capabilities:
+            return (text, [])
+        return (text, capabilities.split(b' '))
     """)
     g.update(_match(tree, "extract_want_line_capabilities", """
-        split_text = text.rstrip().split(b' ')
+        split_text = text.rstrip(b' \\n').split(b' ')
         if len(split_text) < «wantMin»:
             return (text, [])
         return (b' '.join(split_text[:«wantHead»]), split_text[«wantHead»:])
@@ -298,6 +310,12 @@ def flushPkt : List Nat := {list(flush_lit.encode())}
 {d("rdMin", "`read_pkt_line`: `size < M` is a protocol error")}\
 {d("rdHdr", "`read_pkt_line`: `read(size - H)`")}\
 {d("rdChk", "`read_pkt_line`: `len(pkt_contents) + H != size`")}\
+{d("rdEmpty", "`read_pkt_line`: the body is read only `if size > E`")}\
+{d("maxPktLineLen", "`MAX_PKT_LINE_LEN`")}\
+{d("maxDataLen", "`MAX_PKT_LINE_DATA_LEN`: `pkt_line` raises ValueError above it")}\
+{d("unHdr", "`unread_pkt_line`: `len(data) + H`")}\
+{d("unMax", "`unread_pkt_line`: `> M` is a ValueError")}\
+{d("unWidth", "`unread_pkt_line`: `b'%0Wx'`")}\
 {d("sbChunk", "`write_sideband`: `blob[:N]` / `blob[N:]`")}\
 {d("psMin", "`PktLineParser.parse`: `len(buf) < N` / `while len(buf) >= N`")}\
 {d("psPrefix", "`PktLineParser.parse`: `buf[:N]`")}\
@@ -828,18 +846,19 @@ def _stream_prefix(ctx):
     mv = memoryview(big)
     for n in sorted(probe):
         payload = bytes(mv[:n])
-        fr = pkt_line(payload)
-        real = fr[:len(fr) - n]
-        ctx.count("prefix", n, True, "fits" if n <= GIT_DATA_MAX else ("4-digit>git-max" if n <= 65531 else "5-digit"))
-        if outs[n] != hx(real):
-            ctx.disagree("prefix", {"payload_len": n}, outs[n], hx(real))
+        fr = real_pkt_line(payload)
+        real = "V" if fr is None else hx(fr[:len(fr) - n])
+        ctx.count("prefix", n, True, ("fits" if n <= GIT_DATA_MAX else ("4-digit>git-max" if n <= 65531 else "5-digit"))
+                  + (":refused" if fr is None else ":framed"))
+        if outs[n] != real:
+            ctx.disagree("prefix", {"payload_len": n}, outs[n], real)
         _oracle_frame(ctx, "prefix", payload, fr)
     ctx.extra_cov["prefix_lengths_model"] = N
-    # model-side full sweep is also checked against the reference framer's idea of the prefix
+    # model-side full sweep is also checked against the reference framer (refusal above git's limit)
     for n in range(N):
-        exp = ("%04x" % (n + 4)).encode()
-        if outs[n] != hx(exp):
-            ctx.disagree("prefix.model-vs-format", {"payload_len": n}, outs[n], hx(exp))
+        exp = hx(("%04x" % (n + 4)).encode()) if n <= GIT_DATA_MAX else "V"
+        if outs[n] != exp:
+            ctx.disagree("prefix.model-vs-format", {"payload_len": n}, outs[n], exp)
     # pkt_seq
     from dulwich.protocol import pkt_seq
     seqs = [gen_seq(rng, maxlen=5) for _ in range(ctx.budget(100))] + [[], [None], [b""]]
@@ -859,10 +878,26 @@ def _stream_prefix(ctx):
             ctx.disagree("pktline", {"payload": arg}, oo, hx(pkt_line(p)))
 
 
-def _oracle_frame(ctx, stream, payload: bytes, frame: bytes):
-    """`payloads too large for one frame are split or refused, never emitted as a malformed frame`."""
+def real_pkt_line(payload):
+    """pkt_line(payload), or None when it refuses (ValueError / GitProtocolError)."""
+    from dulwich.protocol import pkt_line
+    from dulwich.errors import GitProtocolError
+    try:
+        return pkt_line(payload)
+    except (ValueError, GitProtocolError):
+        return None
+
+
+def _oracle_frame(ctx, stream, payload: bytes, frame):
+    """`payloads too large for one frame are split or refused, never emitted as a malformed frame`
+    (frame None = refused); and what fits one frame must be framed, exactly as the reference does."""
     ref = ref_frame(payload)
     n = len(payload)
+    if frame is None:
+        if ref is not None:
+            ctx.oracle_fail(stream, {"payload_len": n, "payload": "00*%d" % n if payload == bytes(n) else hx(payload)[:64]},
+                            f"pkt_line refused a {n}-byte payload that fits one frame (limit {GIT_DATA_MAX})")
+        return
     if ref is None:
         # one frame was returned for a payload that does not fit one
         if n + 4 > 0xFFFF:
@@ -1133,9 +1168,22 @@ def _stream_script(ctx):
             if probe != want:
                 ctx.oracle_fail("script.eof", {"stream_hex": hx(data), "payload_lens": [None if p is None else len(p) for p in ps]},
                                 f"eof()/read_pkt_line interleaving returned {_short(probe)}, expected {_short(want)}")
+    # a peer's frame longer than what pkt_line would send (65531 bytes) must survive eof(); an oversized
+    # unread is a ValueError
+    long = b"ffff" + bytes([rng.randrange(1, 256)]) * 65531 + b"0005a"
+    for data, ops in ((long, ["e", "r", "e", "r", "e"]), (b"0005a", ["u:" + "61" * 65531, "r", "r"]), (b"0005a", ["u:" + "61" * 65532, "r"])):
+        CURRENT["case"] = {"stream_hex": hx(data), "ops": [o[:12] for o in ops]}
+        real = _run_script_real(data, ops)
+        lines.append(f"c19.script {hx(data)} {','.join(ops)}")
+        meta.append(({"stream_hex": hx(data), "ops": ops}, real))
+        ctx.count("script", (data, tuple(ops)), True, "long-frame")
+    probe = _run_script_real(long, ["e", "r", "e", "r", "e"])
+    if probe != f"0 {show_pkt(long[4:65535])} 0 d:61 1":
+        ctx.oracle_fail("script.eof", {"stream_hex": hx(long), "ops": ["e", "r", "e", "r", "e"]},
+                        f"eof() is not transparent for a 65531-byte frame: {_short(probe)}")
     for (case, real), o in zip(meta, ctx.driver.batch(lines)):
         if o != real:
-            ctx.disagree("script", case, o, real, "Protocol(BytesIO)")
+            ctx.disagree("script", case, _short(o, 300), _short(real, 300), "Protocol(BytesIO)")
 
 
 def _sideband_real(writes):
@@ -1243,6 +1291,7 @@ def _stream_bufwriter(ctx):
         bufsize = 65515 if big else rng.choice([1, 4, 5, 6, 9, 12, 16, 33, 100])
         scen.append((bufsize, [mk_blob(rng, rng.choice([0, 1, 2, 3, 5, 8, 13, 30] if not big else [10, 30000, 65000, 65516, 100]))
                                for _ in range(rng.randint(0, 8))]))
+    scen.append((65515, [mk_blob(rng, 10), mk_blob(rng, 65517), mk_blob(rng, 3)]))   # refused: ValueError
     _bufwriter_cases(ctx, scen)
 
 
@@ -1256,11 +1305,19 @@ def _bufwriter_cases(ctx, scen, model=True):
         CURRENT["case"] = {"bufsize": bufsize, "datas": [sp for sp, _ in specs]}
         outs = Capped(4 * len(datas) + 8)
         w = BufferedPktLineWriter(outs.append, bufsize=bufsize)
-        for d in datas:
-            w.write(d)
-        w.flush()
         case = {"bufsize": bufsize, "data_lens": [len(d) for d in datas], "datas": [sp for sp, _ in specs]}
         lines.append(f"c19.bufwriter {bufsize}{drv_chunks(datas)}")
+        try:
+            for d in datas:
+                w.write(d)
+            w.flush()
+        except ValueError:
+            # pkt_line refused one of the writes: right iff it does not fit one frame
+            meta.append((case, "V"))
+            ctx.count("bufwriter", (bufsize, tuple(datas)), True, "refused")
+            if all(len(d) <= GIT_DATA_MAX for d in datas):
+                ctx.oracle_fail("bufwriter", case, "BufferedPktLineWriter.write refused data that fits one pkt-line")
+            continue
         meta.append((case, "none" if not outs else " ".join(hx(o) for o in outs)))
         ctx.count("bufwriter", (bufsize, tuple(datas)), True, "default-bufsize" if big else "small-bufsize")
         if b"".join(outs) != b"".join(pkt_line(d) for d in datas):
@@ -1293,17 +1350,22 @@ WS = b" \t\n\r\x0b\x0c"
 
 
 def caps_class(caps):
-    """Failing-input classes of the capability round trip (None = must round-trip)."""
+    """Failing-input class labels of the capability round trip as they were before the C19 fix series (the
+    findings are fixed; the labels only describe the input shape in histograms and replay files)."""
     if caps is None:
         return None
     if caps == []:
         return "caps:empty-list"
-    if caps == [b""]:
-        return None
     first, last = caps[0], caps[-1]
-    if first == b"" or last == b"" or first[:1] in WS_SET or last[-1:] in WS_SET:
-        return "caps:edge-token-empty-or-ascii-whitespace"
+    if first[:1] in WS_SET or last[-1:] in WS_SET:
+        return "caps:edge-token-ascii-whitespace"
     return None
+
+
+def caps_in_domain(caps):
+    """The round-trip domain: a (possibly empty) list of non-empty tokens without NUL/LF/SP.  An empty token
+    has no representation in a space-separated, space-stripped list (same status as SP inside a token)."""
+    return caps is None or all(c != b"" for c in caps)
 
 
 WS_SET = {bytes([c]) for c in WS}
@@ -1354,10 +1416,11 @@ def _stream_caps(ctx):
         cls = caps_class(caps)
         if len(ctx.samples) < 5 and caps and cls is None:
             ctx.sample({"stream": "caps", "line": line.decode("latin1"), "extracted": real})
-        ctx.count("caps.refline", (ref, sha, None if caps is None else tuple(caps)), True, cls or ("no-caps" if caps is None else "wf"))
+        ctx.count("caps.refline", (ref, sha, None if caps is None else tuple(caps)), True,
+                  (cls or ("no-caps" if caps is None else "wf")) if caps_in_domain(caps) else "empty-token:tie-only")
         # oracle
-        if b"\0" in ref:
-            pass  # outside the quantifier (ref alphabet excludes NUL)
+        if b"\0" in ref or not caps_in_domain(caps):
+            pass  # outside the domain (NUL in the ref; an empty token): model tie only
         elif caps is None:
             if real != f"{hx(line)} []":
                 ctx.oracle_fail("caps.roundtrip", case, f"line without capabilities came back as {real}")
@@ -1372,11 +1435,9 @@ def _stream_caps(ctx):
             realw = real_extract(extract_want_line_capabilities, wl)
             add(f"c19.caps.want {hx(wl)}", dict(case, want_line=True), realw)
             wantw = f"{hx(b'want ' + sha)} {show_list(caps)}"
-            wcls = None
-            if caps[-1] == b"" or caps[-1][-1:] in WS_SET:
-                wcls = "caps:edge-token-empty-or-ascii-whitespace"
-            ctx.count("caps.want", (sha, tuple(caps)), True, wcls or "wf")
-            if realw != wantw:
+            wcls = "caps:edge-token-ascii-whitespace" if caps[-1][-1:] in WS_SET else None
+            ctx.count("caps.want", (sha, tuple(caps)), True, (wcls or "wf") if caps_in_domain(caps) else "empty-token:tie-only")
+            if realw != wantw and caps_in_domain(caps):
                 ctx.oracle_fail("caps.want-roundtrip", dict(case, want_line=True),
                                 f"extract_want_line_capabilities = {_short(realw)}, expected {_short(wantw)}", wcls)
     # arbitrary lines (model tie; ValueError on several NULs is modelled, outside the quantifier)
@@ -1441,21 +1502,22 @@ def _stream_oversize(ctx):
     pend = []
     for n in sizes:
         payload = bytes([rng.randrange(256)]) * n
-        try:
-            fr = pkt_line(payload)
-        except Exception:  # noqa: BLE001  refused: fine
-            ctx.count("oversize", n, True, "refused")
-            continue
-        ctx.count("oversize", n, True, "emitted")
+        fr = real_pkt_line(payload)
+        ctx.count("oversize", n, True, "refused" if fr is None else "emitted")
         _oracle_frame(ctx, "oversize", payload, fr)
         out = []
         try:
             Protocol(None, out.append).write_pkt_line(payload)
-            for f in out:
-                if len(f) > GIT_LARGE_PACKET_MAX:
-                    _oracle_frame(ctx, "oversize.write_pkt_line", payload, f)
-        except Exception:  # noqa: BLE001
+        except Exception:  # noqa: BLE001  refused
             pass
+        for f in out:
+            if len(f) > GIT_LARGE_PACKET_MAX:
+                _oracle_frame(ctx, "oversize.write_pkt_line", payload, f)
+        if out and fr is None:
+            ctx.oracle_fail("oversize.write_pkt_line", {"payload_len": n}, "write_pkt_line wrote something for a payload pkt_line refuses")
+        if fr is None:
+            pend.append((f"c19.pktline {hx(payload)}", "V", "oversize.pktline", {"payload_len": n, "payload_byte": payload[:1].hex()}, "pkt_line"))
+            continue
         # model tie for what the decoders do with the frame that was emitted
         r, _ = real_read_blocking(fr)
         pend.append((f"c19.read {hx(fr)}", r, "oversize.read", {"payload_len": n, "payload_byte": payload[:1].hex()}, "Protocol(BytesIO)"))
@@ -1574,11 +1636,7 @@ def _run_corpus(ctx):
         ctx.count("corpus", f.stem, True, kind)
         if kind == "pkt_line-oversize":
             payload = bytes([int(c.get("payload_byte", "00"), 16)]) * c["payload_len"]
-            try:
-                fr = pkt_line(payload)
-            except Exception:  # noqa: BLE001
-                continue
-            _oracle_frame(ctx, "corpus", payload, fr)
+            _oracle_frame(ctx, "corpus", payload, real_pkt_line(payload))
         elif kind == "decoders":
             data = unhx(c["stream_hex"])
             chunks = split_at(data, list(itertools.accumulate(c.get("chunk_sizes", [len(data)]))))
@@ -1599,7 +1657,7 @@ def _run_corpus(ctx):
             t, got = extract_want_line_capabilities(b"want " + sha + b" " + b" ".join(caps) + b"\n")
             if (t, got) != (b"want " + sha, caps):
                 ctx.oracle_fail("corpus", c, f"extract_want_line_capabilities returned caps {got}",
-                                "caps:edge-token-empty-or-ascii-whitespace" if caps and (caps[-1] == b"" or caps[-1][-1:] in WS_SET) else None)
+                                "caps:edge-token-ascii-whitespace" if caps and caps[-1][-1:] in WS_SET else None)
     _flush_pending(ctx, pend)
 
 
@@ -1610,7 +1668,8 @@ def run(ctx: core.Ctx):
         "theorems quantify over every fragment list with non-empty fragments",
         "git's LARGE_PACKET_MAX = 65520 (pkt-line.h / protocol-common) is an external constant of the wire format",
         "CPython semantics of bytes slicing with negative indices, str.format ':04x', bytes.strip/split, io.BytesIO",
-        "SP is the capability-list separator: tokens containing SP are excluded from the round-trip domain like NUL/LF",
+        "SP is the capability-list separator: tokens containing SP, and empty tokens, are excluded from the "
+        "round-trip domain like NUL/LF (model tie only)",
     ]
     _fingerprints(ctx)
     for fn in (_run_corpus, _stream_prefix, _stream_parselen, _stream_exhaustive, _stream_roundtrip, _stream_malformed,
@@ -1635,25 +1694,26 @@ def _guard(ctx, fn):
                         "the real code did not terminate (or produced output without consuming input) on this case")
 
 
-# AST fingerprints (harness.translate.fingerprint) of the anchored functions at the pinned commit
+# AST fingerprints (harness.translate.fingerprint) of the anchored functions at the pinned commit + the C19 fix
+# series (PENDING-1..4)
 BASE_FP: dict = {
     "BufferedPktLineWriter.flush": "afa659ac7aae02c9",
     "BufferedPktLineWriter.write": "4854ce9bc15a0e1b",
     "PktLineParser.parse": "b8ed33479fed3835",
     "Protocol.eof": "fcb49561231e89f7",
-    "Protocol.read_pkt_line": "6cc80f9375c55b25",
+    "Protocol.read_pkt_line": "b2d3c0c1b9ad20d1",
     "Protocol.read_pkt_seq": "4d46a9c4159b185d",
-    "Protocol.unread_pkt_line": "ae91f5b710ecb822",
+    "Protocol.unread_pkt_line": "13bb8a285edb56d3",
     "Protocol.write_pkt_line": "ee4816c7f9f866e8",
     "Protocol.write_sideband": "ebc6326941719590",
     "ReceivableProtocol.read": "104ecc6bc69047f3",
     "ReceivableProtocol.recv": "ad953cd59506e968",
     "_parse_pkt_line_length": "9ce89cd59bf1d932",
-    "extract_capabilities": "3dbf0bacd4e6dcbc",
-    "extract_want_line_capabilities": "bed0ce48e17f990b",
+    "extract_capabilities": "d9b314f398121951",
+    "extract_want_line_capabilities": "1dd4757624873799",
     "format_capability_line": "11b7de34ab326e80",
     "format_ref_line": "e00f20051356f0f1",
-    "pkt_line": "56221ccfda4ee7fd",
+    "pkt_line": "8cd4d4192d2e9f7b",
     "pkt_seq": "99360132954749e1",
 }
 
@@ -1756,12 +1816,9 @@ def replay(ctx: core.Ctx, data: dict) -> int:
     elif "payload_len" in c:
         n = c["payload_len"]
         payload = bytes([int(c.get("payload_byte", "00"), 16)]) * n
-        try:
-            fr = pkt_line(payload)
-            print(f"replay: pkt_line({n} bytes) -> {len(fr)}-byte frame, prefix {fr[:len(fr) - n]!r}")
-            _oracle_frame(ctx, "replay", payload, fr)
-        except Exception as e:  # noqa: BLE001
-            print(f"replay: pkt_line({n} bytes) refused: {type(e).__name__}")
+        fr = real_pkt_line(payload)
+        print(f"replay: pkt_line({n} bytes) -> " + ("refused" if fr is None else f"{len(fr)}-byte frame, prefix {fr[:len(fr) - n]!r}"))
+        _oracle_frame(ctx, "replay", payload, fr)
         shown = True
     elif "sizestr" in c:
         from dulwich.protocol import _parse_pkt_line_length
@@ -1792,7 +1849,7 @@ def replay(ctx: core.Ctx, data: dict) -> int:
             print(f"replay: extract_want_line_capabilities({wl!r}) -> {got}")
             if got != (b"want " + sha, caps):
                 ctx.oracle_fail("replay", c, f"want line came back as {got}",
-                                "caps:edge-token-empty-or-ascii-whitespace" if caps and (caps[-1] == b"" or caps[-1][-1:] in WS_SET) else None)
+                                "caps:edge-token-ascii-whitespace" if caps and caps[-1][-1:] in WS_SET else None)
         else:
             ref = unhx(c["ref"])
             line = format_ref_line(ref, sha, caps)
